@@ -261,7 +261,18 @@ def to_int(P, s, base=10):
             n = n + len(g)
         else:
             if g.base != base:
-                raise Unsupported(f'int(base-{g.base} digit string, {base})')
+                if g.base < base and base in _DIGITS:
+                    # digits of the narrower base read in a wider base: every digit is valid, the VALUE is another
+                    # function of the same digits (uninterpreted `redigit`), which agrees on one-digit numbers
+                    # and is strictly larger otherwise ("10" read in base 16 is 16)
+                    rd = z3.Function(f'redigit_{g.base}_{base}', z3.IntSort(), z3.IntSort(), z3.IntSort())
+                    r = rd(g.val, g.len)
+                    P.assume(z3.And(r >= g.val, r < theory.ipow(z3.IntVal(base), g.len),
+                                    z3.Implies(g.val < g.base, r == g.val),
+                                    z3.Implies(g.val >= g.base, r >= g.val + (base - g.base))), fact=True)
+                    g = DigitStr(r, g.len, base, g.name + f'@{base}')
+                else:
+                    raise Unsupported(f'int(base-{g.base} digit string, {base})')
             val = val * theory.ipow(z3.IntVal(base), g.len) + g.val if not (isinstance(val, int) and val == 0) else g.val
             n = n + g.len
     empty = (n == 0) if isinstance(n, int) else simp(n == 0)
